@@ -11,6 +11,7 @@ package openapiv3
 // The validation tail of schemafy: the keywords of the OpenAPI 3 schema mirror the design's validation, and
 // a length bound lands on the keyword that applies to the kind of value. Everything before the tail (type
 // dispatch, references, examples) is not specified here; user types return a reference early.
+//@ smt (declare-fun attrHashSpec (Int) Int)
 //@ func (*schemafier).schemafy
 //@   params sf attr noref
 //@   property C14
@@ -37,6 +38,14 @@ package openapiv3
 //@   let excluded = found != nil && !prev(5, mustGen(now(found.Meta)))
 //@   loop 5 invariant* all.required.visited: val != nil && ranged(5) == val.Required && s != nil
 //@   loop 5 step* required.filtered: len(s.Required) == prev(5, len(s.Required)) + ite(excluded, 0, 1) && (!excluded ==> s.Required[len(s.Required) - 1] == cur) && (forall k int :: 0 <= k && k < prev(5, len(s.Required)) ==> s.Required[k] == prev(5, s.Required[k]))
+//   -- a user type is documented by reference: an existing component schema is reused, and a new one is filed,
+//   -- only under the structural hash of the attribute being documented (two types that merely share a name never
+//   -- share a schema); hashAttribute is abstracted as a function of the attribute
+//@   callspec (*schemafier).hashAttribute params sf0 att h
+//@       ensures result == attrHashSpec(att)
+//@       modifies nothing
+//@   at lookup schemafier.hashes assert* reference.keyed.by.structure: key == attrHashSpec(attr)
+//@   at mapupdate schemafier.hashes assert* reference.filed.by.structure: key == attrHashSpec(attr)
 //@   modifies all
 //@   preserves fieldsOf(expr.AttributeExpr), fieldsOf(expr.ValidationExpr)
 //@   loop 1 modifies elems(string)
